@@ -67,3 +67,12 @@ Print Assumptions C07_generic_analyze.
 Theorem C07_generic_synthesize : forall n low high s lh, Signalo.Model.Generic.g_syn_step Signalo.Base.Arith.Qar n low high s lh = Signalo.Model.Wavelet.syn_step n low high s lh.
 Proof. exact Signalo.Proofs.Generic.gq_syn. Qed.
 Print Assumptions C07_generic_synthesize.
+
+(* No false alarm: the boolean reading of this property that the correspondence check evaluates on the IMPLEMENTATION's
+   outputs (Check/C07.v, verdict bit 2) can never fail on outputs that agree with the model (bit 1 clear); side conditions,
+   where there are any, are boolean and say which recorded observations the model comparison does not cover. *)
+From Coq Require Import NArith.
+From Signalo Require Base.Report Check.C07 Proofs.Sound_C07.
+Theorem C07_checker_no_false_alarm : forall c : Signalo.Check.C07.case, Signalo.Proofs.Sound_C07.wf c = true -> N.land (Signalo.Base.Report.code (Signalo.Check.C07.check c)) 3 <> 2%N.
+Proof. exact Signalo.Proofs.Sound_C07.C07_check_sound. Qed.
+Print Assumptions C07_checker_no_false_alarm.
